@@ -84,6 +84,12 @@ def T_uni(name, i):
     return [f"({name}\u00e9)=", f"TM{i} para"], [dict(name=name + "\u00e9", marker=f"TM{i} para", title=None, kind="tgt-uni", explicit=True)]
 
 
+def T_target_head_stale(name, i):
+    # headings that go deeper, come back up and then skip a level: the named heading must still be the section the target is attached to
+    return ([f"# Alpha{i}", "", f"## Beta{i}", "", f"# Gamma{i}", "", f"({name})=", f"### TM{i} Head"],
+            [dict(name=name, marker=f"TM{i} Head", title=f"TM{i} Head", kind="tgt-head-stale", explicit=True)])
+
+
 def T_discarded(name, i):
     # a target inside directive content that the directive throws away (a figure whose caption is a list): it names nothing
     return ["```{figure} img.png", "- item", "", f"  ({name}gone)=", f"  TM{i} para", "```"], [dict(name="zzunused" + str(i), marker="NOSUCH", title=None, kind="discarded", explicit=True)]
@@ -99,7 +105,7 @@ def T_deep_head(name, i):
     return ["## Mid", "", "### Low", "", f"#### {name}deep"], [dict(name="mid", marker="Mid", title="Mid", kind="slug", explicit=False, ordinal=0)]
 
 
-TK = {"slug-cap": T_slug_cap, "deep-head": T_deep_head, "tgt-uni": T_uni, "discarded": T_discarded, "slug-html": T_slug_html, "tgt-para": T_target_para, "tgt-head": T_target_head, "attr-para": T_attr_para, "attr-head": T_attr_head,
+TK = {"tgt-head-stale": T_target_head_stale, "slug-cap": T_slug_cap, "deep-head": T_deep_head, "tgt-uni": T_uni, "discarded": T_discarded, "slug-html": T_slug_html, "tgt-para": T_target_para, "tgt-head": T_target_head, "attr-para": T_attr_para, "attr-head": T_attr_head,
       "dir-name": T_dir_name, "slug": T_slug, "slug-dup": T_slug_dup, "slug-dup3": T_slug_dup3, "tgt-case": T_case}
 FORMS = ["text", "empty", "auto", "nested"]
 CTX = {
